@@ -17,7 +17,7 @@ PROFILES = {
     "C09": dict(build=2, operator=2, bquery=1, uquery=3, copy=1, transform=9, rerep=1, fault=2,
                 mutate_after=0.3, t1=0.2, t2=0.8, repeat=0.05),
     "C10": dict(build=2, operator=6, bquery=4, uquery=5, copy=1, transform=3, rerep=2, fault=2,
-                mutate_after=0.15, t1=1.0, t2=0.7, repeat=0.35),
+                mutate_after=0.15, t1=1.0, t2=0.7, repeat=0.35, query_after=0.6),
 }
 
 
@@ -50,6 +50,7 @@ class Scheduler:
         cfg["contact_ok"] = r.random() < 0.25  # partial-contact pairs take part (T1 / frame only)
         cfg["composite_builds"] = r.random() < 0.5
         cfg["big_numbers"] = r.random() < 0.15
+        cfg["fracden"] = r.choice([12, 12, 12, 60, 7, 0])  # 0 = a random denominator per number
         cfg.update(force)
         return cfg
 
@@ -90,10 +91,44 @@ class Scheduler:
             val = 0.5
         return val
 
+    def _den(self):
+        d = self.cfg.get("fracden", 12)
+        return d if d else self.rng.choice([5, 11, 13, 17, 29, 64, 97, 360])
+
     # ------------------------------------------------------------- builds
+    def variant_build(self, world):
+        """A new object denoting the same region as an existing one, built differently:
+        other start vertex, optionally a redundant vertex in the middle of an edge."""
+        r = self.rng
+        names = [n for n in sorted(world.slots) if kernel.kind(world.slots[n].V) in ("S", "J")]
+        if not names:
+            return None
+        a = r.choice(names)
+        tag, chain = world.slots[a].V
+        chain = list(chain)
+        k = r.randrange(len(chain))
+        chain = chain[k:] + chain[:k]
+        if r.random() < 0.4:
+            i = r.randrange(len(chain))
+            seg = chain[i]
+            if len(seg) == 2:
+                (x0, y0), (x1, y1) = seg
+                if all(isinstance(c, (int, Fraction)) for c in (x0, y0, x1, y1)):
+                    t = r.choice([Fraction(1, 2), Fraction(1, 3), Fraction(3, 4)])
+                else:
+                    t = 0.5
+                m = (x0 + (x1 - x0) * t, y0 + (y1 - y0) * t)
+                chain[i:i + 1] = [((x0, y0), m), (m, (x1, y1))]
+        return {"op": "build", "what": "value", "value": model.jsonable((tag, tuple(chain))),
+                "dst": self._slot_for_result(world)}
+
     def build_step(self, world):
         r = self.rng
         cfg = self.cfg
+        if world.slots and r.random() < 0.15:
+            st = self.variant_build(world)
+            if st is not None:
+                return st
         numeric = cfg["numeric"]
         if r.random() < 0.12:
             numeric = r.choice(["int", "frac", "float"])  # mixed-type runs
@@ -117,11 +152,11 @@ class Scheduler:
                     "radius": J(self._number(1, 4, numeric, True)), "center": _jp(center), "dst": dst}
         if what == "circle":
             return {"op": "build", "what": "circle", "radius": J(self._number(1, 3, numeric, True)),
-                    "center": _jp(center), "ndiv": r.choice([4, 5, 6, 8, 8, 12, 16]), "dst": dst}
+                    "center": _jp(center), "ndiv": r.choice([4, 4, 5, 6, 8]), "dst": dst}
         if what == "singleton":
             return {"op": "build", "what": "value", "value": r.choice(["E", "W"]), "dst": dst}
         if what == "primpoly":
-            verts = gen.polygon(r, numeric)
+            verts = gen.polygon(r, numeric, den=self._den())
             return {"op": "build", "what": "polygon", "verts": [_jp(v) for v in verts], "dst": dst}
         if what in ("quad", "cubic"):
             chain = gen.curved_chain(r, numeric, 2 if what == "quad" else 3)
@@ -130,7 +165,7 @@ class Scheduler:
             if r.random() < 0.2:
                 chain = gen.reverse_chain(chain)
             return {"op": "build", "what": "value", "value": model.jsonable(("S", chain)), "dst": dst}
-        verts = gen.polygon(r, numeric)
+        verts = gen.polygon(r, numeric, den=self._den())
         chain = gen.poly_chain(verts)
         if what == "jordan":
             if r.random() < 0.3:
@@ -184,8 +219,12 @@ class Scheduler:
             if r.random() < 0.08:
                 b = a
             if a == b:
+                if not kernel.is_polygonal(world.slots[a].V):
+                    continue
                 return a, b
             pos = kernel.position(world.slots[a].V, world.slots[b].V)
+            if pos == "identical" and not kernel.is_polygonal(world.slots[a].V):
+                continue  # identical curved boundaries: minutes of Newton iterations per call
             if pos != "contact" or self.cfg["contact_ok"]:
                 return a, b
         return None
@@ -245,12 +284,12 @@ class Scheduler:
         step = {"op": kind, "a": a, "b": b}
         return self._oracle_flags(step)
 
-    def uquery_step(self, world):
+    def uquery_step(self, world, target=None):
         r = self.rng
         names = sorted(world.slots)
         if not names:
             return None
-        a = r.choice(names)
+        a = target if target in world.slots else r.choice(names)
         v = world.slots[a].V
         k = kernel.kind(v)
         if k == "J":
@@ -372,7 +411,7 @@ class Scheduler:
                 steps.append({"op": "rotate", "a": a, "angle": J(ang), "degrees": None})
                 steps.append({"op": "rotate", "a": a, "angle": J(-ang), "degrees": False})
         steps.append({"op": "eq", "a": a, "b": snap, "t1": False, "t2": False,
-                      "same_answer_as": base + 1})
+                      "same_answer_as": base + 1, "needs": [base + 2, base + 3]})
         return steps
 
     def rerep_step(self, world):
@@ -446,6 +485,8 @@ class Scheduler:
             step = getattr(self, kind + "_step")(world)
             if step is None:
                 continue
+            if kind == "transform" and r.random() < p.get("query_after", 0.3):
+                self.pending.append({"macro": "query_after", "of": step})
             if kind in ("operator", "copy") and r.random() < p["mutate_after"]:
                 # follow with an in-place mutation of the result or of an operand
                 self.pending.append({"macro": "mutate_after", "of": step})
@@ -455,6 +496,15 @@ class Scheduler:
     def resolve_macro(self, world, macro):
         """Turn a queued macro into a concrete step (needs the heap after the previous step)."""
         of = macro["of"]
+        if macro["macro"] == "query_after":
+            if of.get("a") not in world.slots:
+                return None
+            for _ in range(6):
+                st = self.uquery_step(world, target=of["a"])
+                if st is not None and st["op"] not in ("str", "repr", "plot", "points"):
+                    st["t1"] = True
+                    return st
+            return None
         cands = [of[k] for k in ("dst", "a", "b") if of.get(k) is not None and of.get(k) in world.slots]
         cands = [n for n in cands if kernel.kind(world.slots[n].V) not in ("E", "W")]
         if not cands:
